@@ -1,4 +1,7 @@
 # -*- coding: utf-8 -*-
+from vsg import severity
+
+
 def print_output(dRunInfo):
     """
     Displays results to stdout in a compact format.
@@ -6,12 +9,14 @@ def print_output(dRunInfo):
     Parameters:
       dRunInfo (dictionary)
     """
+    bErrorFree = not any(dViolation["severity"]["type"] == severity.error_type for dViolation in dRunInfo["violations"])
+
     sOutputString = "File: "
     sOutputString += dRunInfo["filename"]
 
     sOutputString += " "
 
-    if dRunInfo["severities"]["Error"] == 0:
+    if bErrorFree:
         sOutputString += "OK"
     else:
         sOutputString += "ERROR"
@@ -28,7 +33,7 @@ def print_output(dRunInfo):
         sOutputString += ": "
         sOutputString += str(dRunInfo["severities"][sSeverity])
         sOutputString += "]"
-    if dRunInfo["severities"]["Error"] == 0:
+    if bErrorFree:
         return sOutputString, None
     else:
         return None, sOutputString
